@@ -484,6 +484,18 @@ fn free_strategy() -> impl Strategy<Value = FreeCase> {
 }
 
 pub fn run_free(case: &FreeCase) -> CaseOutcome {
+    // free-running threads: not a pure function of the case; while a failure is being confirmed the case is repeated
+    let mut last = run_free_once(case);
+    for _ in 1..crate::driver::free_reps() {
+        if last.1.is_some() {
+            break;
+        }
+        last = run_free_once(case);
+    }
+    last
+}
+
+fn run_free_once(case: &FreeCase) -> CaseOutcome {
     use std::sync::atomic::AtomicUsize;
     let mut info = CaseInfo { fingerprint: fingerprint(case), ..CaseInfo::default() };
     let n = case.actors.len().clamp(1, 6);
